@@ -290,7 +290,17 @@ class Engine:
         raise GenerationError(f"unbound name {node.id} in {self.c.qualname}")
 
     def _sibling_function(self, name: str):
-        if not self.c.nested_in or name in self.c.calls:
+        if name in self.c.calls:
+            return None
+        if not self.c.nested_in:
+            # a helper function of the same module that is not under contract and not modelled
+            from .source import _defs_in
+            modname = self.func.mod.name
+            if f"{modname}.{name}" in getattr(self.registry, "contracts", {}):
+                return None
+            for d in self.func.mod.tree.body:
+                if isinstance(d, ast.FunctionDef) and d.name == name and not d.decorator_list and d is not self.func.node:
+                    return d
             return None
         try:
             outer = self.repo.func(self.c.nested_in)
